@@ -15,6 +15,12 @@ GROUPS.append(Group(name="C18/list_output_tms9900", unity="C18/u_listfmt.cpp", e
 GROUPS.append(Group(name="C18/list_output_msp430", unity="C18/u_listfmt.cpp", entry="h_listfmt",
                     functions=[("list_output_msp430_both", "disasm/msp430.cpp", "harness+2 loop-contracts, any range (function text extracted verbatim; backs list_output_msp430 and list_output_msp430x)"), ("disasm_msp430/disasm_msp430x", "disasm/msp430.cpp", "replaced by their contract (even length 2..8), discharged for msp430 by C08/disasm_msp430")],
                     defines=["LISTCPU=430"], loops="C18/listfmt430.loops.json", expected_loops=2, unwind=14, checks=CH, timeout=900))
+# byte-column family: bytes[] capacity 10 / 16 / 14 must hold 3 characters per byte of the longest instruction
+for cpu, maxlen in (("6800", 3), ("6809", 5), ("68hc08", 4)):
+    GROUPS.append(Group(name="C18/list_output_%s" % cpu, unity="C18/u_listbytes.cpp", entry="h_listbytes",
+                        functions=[("list_output_%s" % cpu, "disasm/%s.cpp" % cpu, "harness+2 loop-contracts, any range (function text extracted verbatim)"), ("disasm_%s" % cpu, "disasm/%s.cpp" % cpu, "replaced by its contract (length 1..%d)" % maxlen)],
+                        defines=["LISTFN=list_output_%s" % cpu, "DISFN=disasm_%s" % cpu, "MAXLEN=%d" % maxlen, "DISHDR=disasm/%s.h" % cpu, "LISTINC=gen/list_output_%s.inc" % cpu],
+                        subst={"FN": "list_output_%s" % cpu, "MAXLEN": maxlen}, loops="C18/listbytes.loops.json", expected_loops=2, unwind=14, checks=CH, timeout=900))
 GROUPS += [g for g in _c12.GROUPS if g.name == "C12/assemble"]
 # the dump shows exactly the bytes marked DL_DATA: the data directives' contracts carry "every byte they emit is marked DL_DATA"
 GROUPS += [g for g in _c05.GROUPS if g.tier == "quick" and ("parse_db" in g.name or "parse_dc" in g.name)]
